@@ -47,4 +47,4 @@ def run(r):
         r.replay = None
     corpus = sorted(glob.glob(os.path.join(ROOT, "corpus", r.pid, "*.json")))
     r.extra_cov["corpus_files"] = [os.path.basename(c) for c in corpus]
-    return standard(r, "c09", ["theories/C09/Reals.vo", "theories/C09/Full.vo", "theories/C09/LexFull.vo"], ["theories/C09/Model.vo"], ["ser", "lex", "incr"], classify=classify)
+    return standard(r, "c09", ["theories/C09/Reals.vo", "theories/C09/Full.vo", "theories/C09/IncrFull.vo", "theories/C09/LexFull.vo"], ["theories/C09/Model.vo"], ["ser", "lex", "incr"], classify=classify)
